@@ -71,7 +71,9 @@ def main():
     meta['confirmed']['demo_without_change'] = {'exit': rc2, 'tail': o2.strip().splitlines()[-3:], 'secs': round(time.time()-t0)}
     sh(f'git apply {out}/patch.diff', cwd=wt)
     meta['confirmed']['demo_discriminates'] = (rc1 != 0 and rc2 == 0)
-    # our checks against it
+    # our checks against it (none given: confirmation only, /repo is not touched)
+    if not checks:
+        return store(sid, out, meta)
     assert sh('git -C /repo status --porcelain')[1].strip() == '', '/repo not clean'
     try:
         rc, o = sh(f'git -C /repo apply {out}/patch.diff')
@@ -87,6 +89,9 @@ def main():
         sh('git -C /repo checkout -- .')
         sh('rm -rf /verif/replays/*/found')
         sh('git -C /verif checkout -- evidence 2>/dev/null')
+    store(sid, out, meta)
+
+def store(sid, out, meta):
     d = f'/verif/seeded/{sid}'
     os.makedirs(d, exist_ok=True)
     for f in ['patch.diff', 'demo.sh', 'notes.md']:
